@@ -219,7 +219,7 @@ Lemma mapped_segments_text a b c d :
   octet a -> octet b -> octet c -> octet d ->
   ipv6_to_string [0; 0; 0; 0; 0; 65535; a * 256 + b; c * 256 + d] = mapped_text (ipv4_to_string [a; b; c; d]).
 Proof.
-  unfold octet. intros Ha Hb Hc Hd. unfold ipv6_to_string, to_ipv4_mapped.
+  unfold octet. intros Ha Hb Hc Hd. unfold ipv6_to_string, to_ipv4_mapped. cbn [Z.eqb andb].
   replace ((a * 256 + b) / 256) with a by lia. replace ((a * 256 + b) mod 256) with b by lia.
   replace ((c * 256 + d) / 256) with c by lia. replace ((c * 256 + d) mod 256) with d by lia.
   reflexivity.
@@ -250,7 +250,7 @@ Lemma to_ipv4_mapped_segments a b c d :
   octet a -> octet b -> octet c -> octet d ->
   to_ipv4 [0; 0; 0; 0; 0; 65535; a * 256 + b; c * 256 + d] = Some [a; b; c; d].
 Proof.
-  unfold octet. intros Ha Hb Hc Hd. unfold to_ipv4. cbn [Z.eqb orb].
+  unfold octet. intros Ha Hb Hc Hd. unfold to_ipv4. cbn [Z.eqb orb andb].
   replace ((a * 256 + b) / 256) with a by lia. replace ((a * 256 + b) mod 256) with b by lia.
   replace ((c * 256 + d) / 256) with c by lia. replace ((c * 256 + d) mod 256) with d by lia.
   reflexivity.
